@@ -51,6 +51,20 @@ def matches(entry, case):
     return True
 
 
+_OPEN = None
+
+
+def match_open(case):
+    """id of the open known-finding entry (of any property) that this violating case matches, else None"""
+    global _OPEN
+    if _OPEN is None:
+        _OPEN = [e for e in load() if e.get('status') == 'open']
+    for e in _OPEN:
+        if matches(e, case):
+            return e['id']
+    return None
+
+
 def classify(pid, violations):
     entries = [e for e in load() if e.get('property') == pid and e.get('status') == 'open']
     known, new = {}, []
